@@ -259,10 +259,6 @@ Lemma sinv_genesis p start wl t0 :
 Proof.
   intros V S. unfold ent_genesis. constructor; sproj; cbn; try constructor; try lia; auto;
     try discriminate; try reflexivity.
-  - intros [].
-  - unfold status_of; cbn. stu. discriminate.
-  - intros [].
-  - unfold status_of; cbn. stu. discriminate.
 Qed.
 
 Lemma ent_inv_genesis b0 p start wl t0 :
@@ -275,4 +271,948 @@ Proof.
   - exact T.
   - rewrite B. reflexivity.
   - intros d _. apply B.
+Qed.
+
+(* ================================================================= *)
+(* reading the order table after one write                            *)
+(* ================================================================= *)
+
+Lemma aget_aset_Z {V} (k k' : Z) (v : V) (m : amap Z V) :
+  aget k' (aset k v m) = if k' =? k then Some v else aget k' m.
+Proof.
+  destruct (Z.eqb_spec k' k) as [->|N]; [apply aget_aset_eq | apply aget_aset_neq; congruence].
+Qed.
+
+Lemma status_of_aset s s' id o id' :
+  e_pos s' = aset id o (e_pos s) ->
+  status_of s' id' = if id' =? id then po_status o else status_of s id'.
+Proof.
+  intros E. unfold status_of. rewrite E, aget_aset_Z. destruct (id' =? id); reflexivity.
+Qed.
+
+Definition csum_f (a : addr) (o : po) : Z :=
+  if (po_status o =? ST_COMPLETED) && (po_purchaser o =? a) then po_amount o else 0.
+
+Lemma completed_sum_aset s s' id o a :
+  e_pos s' = aset id o (e_pos s) ->
+  completed_sum s' a =
+  completed_sum s a - match aget id (e_pos s) with Some o0 => csum_f a o0 | None => 0 end + csum_f a o.
+Proof.
+  intros E. unfold completed_sum. rewrite E, asum_aset. reflexivity.
+Qed.
+
+Lemma completed_sum_same_pos s s' a : e_pos s' = e_pos s -> completed_sum s' a = completed_sum s a.
+Proof. intros E. unfold completed_sum. rewrite E. reflexivity. Qed.
+
+Lemma status_of_same_pos s s' id : e_pos s' = e_pos s -> status_of s' id = status_of s id.
+Proof. intros E. unfold status_of. rewrite E. reflexivity. Qed.
+
+Lemma fresh_next now s : sinv now s -> aget (e_next s) (e_pos s) = None.
+Proof.
+  intros I. destruct (aget (e_next s) (e_pos s)) as [o|] eqn:G; [|reflexivity].
+  apply (si_po _ _ I) in G. destruct G. lia.
+Qed.
+
+Lemma status_raised_Some s id : status_of s id = ST_RAISED ->
+  exists o, aget id (e_pos s) = Some o /\ po_status o = ST_RAISED.
+Proof.
+  unfold status_of. destruct (aget id (e_pos s)) as [o|]; [eauto|]. stu. discriminate.
+Qed.
+
+Lemma status_accepted_Some s id : status_of s id = ST_ACCEPTED ->
+  exists o, aget id (e_pos s) = Some o /\ po_status o = ST_ACCEPTED.
+Proof.
+  unfold status_of. destruct (aget id (e_pos s)) as [o|]; [eauto|]. stu. discriminate.
+Qed.
+
+(* ================================================================= *)
+(* messages                                                           *)
+(* ================================================================= *)
+
+Lemma exec_raise_inv now s p d amt s' r :
+  ent_exec now s (ERaise p d amt) = Ok (s', r) ->
+  d = dn s /\ 0 < amt /\ mem_addr p (e_wl s) = true /\ r = e_next s /\
+  s' = {| e_params := e_params s; e_next := e_next s + 1;
+          e_pos := aset (e_next s)
+                     {| po_id := e_next s; po_purchaser := p; po_denom := d; po_amount := amt;
+                        po_status := ST_RAISED; po_raise_time := now; po_completion_time := 0;
+                        po_decisions := [] |} (e_pos s);
+          e_raisedq := e_raisedq s ++ [e_next s]; e_acceptedq := e_acceptedq s; e_wl := e_wl s;
+          e_locked := e_locked s; e_spent := e_spent s;
+          e_totlocked := e_totlocked s; e_totspent := e_totspent s |}.
+Proof.
+  cbn [ent_exec]. unfold dn.
+  destruct (d =? ep_denom (e_params s)) eqn:E1; cbn [negb]; [|discriminate].
+  destruct (amt <=? 0) eqn:E2; [discriminate|].
+  destruct (mem_addr p (e_wl s)) eqn:E3; cbn [negb]; [|discriminate].
+  intros [= <- <-]. repeat split; try lia.
+Qed.
+
+Lemma sinv_raise now s p d amt s' r :
+  sinv now s -> 0 <= p -> 0 <= now ->
+  ent_exec now s (ERaise p d amt) = Ok (s', r) -> sinv now s'.
+Proof.
+  intros I Hp Hn H. apply exec_raise_inv in H as (Ed & Ha & Hw & -> & ->).
+  pose proof (fresh_next _ _ I) as F.
+  assert (SN : status_of s (e_next s) = ST_NIL) by (unfold status_of; rewrite F; reflexivity).
+  destruct I. constructor; sproj; auto.
+  - apply NoDup_akeys_aset; auto.
+  - apply NoDup_snoc; auto. rewrite si_rq0, SN. stu. discriminate.
+  - lia.
+  - intros id o. rewrite aget_aset_Z. destruct (Z.eqb_spec id (e_next s)) as [->|N].
+    + intros [= <-]. constructor; cbn; try lia; auto.
+      * unfold st_valid; auto.
+      * constructor.
+    + intros G. eapply po_ok_next; [|apply si_po0; exact G]. lia.
+  - intros id. rewrite in_app_iff. erewrite status_of_aset by reflexivity. cbn [po_status In].
+    destruct (Z.eqb_spec id (e_next s)) as [->|N].
+    + tauto.
+    + rewrite si_rq0. split; [intros [X|[X|[]]]; [exact X|congruence] | auto].
+  - intros id. erewrite status_of_aset by reflexivity. cbn [po_status].
+    destruct (Z.eqb_spec id (e_next s)) as [->|N].
+    + rewrite si_aq0, SN. stu. split; discriminate.
+    + apply si_aq0.
+  - intros a. erewrite completed_sum_aset by reflexivity. sproj. rewrite F.
+    unfold csum_f; cbn. specialize (si_acct0 a). unfold amount_coin in *. lia.
+Qed.
+
+Definition add_decision (o : po) (sg dec now : Z) : po :=
+  {| po_id := po_id o; po_purchaser := po_purchaser o; po_denom := po_denom o;
+     po_amount := po_amount o; po_status := po_status o; po_raise_time := po_raise_time o;
+     po_completion_time := po_completion_time o;
+     po_decisions := po_decisions o ++ [{| d_signer := sg; d_decision := dec; d_time := now |}] |}.
+
+Lemma existsb_signer_false sg ds :
+  existsb (fun d => d_signer d =? sg) ds = false -> ~ In sg (map d_signer ds).
+Proof.
+  intros E I. apply in_map_iff in I as (d & Ed & Id).
+  assert (existsb (fun d => d_signer d =? sg) ds = true); [|congruence].
+  apply existsb_exists. exists d. split; [exact Id|lia].
+Qed.
+
+Lemma exec_decide_inv now s sg poid dec s' r :
+  ent_exec now s (EDecide sg poid dec) = Ok (s', r) ->
+  is_signer s sg = true /\ (dec = ST_ACCEPTED \/ dec = ST_REJECTED) /\ r = 0 /\
+  exists o, aget poid (e_pos s) = Some o /\ po_status o = ST_RAISED /\
+            ~ In sg (map d_signer (po_decisions o)) /\
+            s' = with_pos s (aset poid (add_decision o sg dec now) (e_pos s)) (e_raisedq s) (e_acceptedq s).
+Proof.
+  cbn [ent_exec].
+  destruct (is_signer s sg) eqn:E1; cbn [negb]; [|discriminate].
+  destruct (aget poid (e_pos s)) as [o|] eqn:G; [|discriminate].
+  destruct ((dec =? ST_ACCEPTED) || (dec =? ST_REJECTED)) eqn:E2; cbn [negb]; [|discriminate].
+  destruct (po_status o =? ST_NIL) eqn:E3; [discriminate|].
+  destruct (po_status o =? ST_RAISED) eqn:E4; cbn [negb]; [|discriminate].
+  destruct (existsb (fun d => d_signer d =? sg) (po_decisions o)) eqn:E5; [discriminate|].
+  intros [= <- <-]. split; [reflexivity|]. split; [lia|]. split; [reflexivity|].
+  exists o. split; [reflexivity|]. split; [lia|]. split; [apply existsb_signer_false; exact E5|].
+  reflexivity.
+Qed.
+
+(* replacing an order by one with the same status / purchaser / amount *)
+Lemma sinv_replace_same now s id o o' :
+  sinv now s -> aget id (e_pos s) = Some o ->
+  po_ok (e_next s) (dn s) now id o' ->
+  po_status o' = po_status o -> po_purchaser o' = po_purchaser o -> po_amount o' = po_amount o ->
+  sinv now (with_pos s (aset id o' (e_pos s)) (e_raisedq s) (e_acceptedq s)).
+Proof.
+  intros I G K Es Ep Ea.
+  assert (SS : forall id', status_of (with_pos s (aset id o' (e_pos s)) (e_raisedq s) (e_acceptedq s)) id'
+                           = status_of s id').
+  { intros id'. erewrite status_of_aset by reflexivity.
+    destruct (Z.eqb_spec id' id) as [->|N]; [|reflexivity].
+    unfold status_of. rewrite G. exact Es. }
+  destruct I. constructor; sproj; auto.
+  - apply NoDup_akeys_aset; auto.
+  - intros id' o2. rewrite aget_aset_Z. destruct (Z.eqb_spec id' id) as [->|N].
+    + intros [= <-]. exact K.
+    + apply si_po0.
+  - intros id'. rewrite SS. apply si_rq0.
+  - intros id'. rewrite SS. apply si_aq0.
+  - intros a. erewrite completed_sum_aset by reflexivity. sproj. rewrite G.
+    unfold csum_f. rewrite Es, Ep, Ea. specialize (si_acct0 a). unfold amount_coin in *. lia.
+Qed.
+
+Lemma sinv_decide now s sg poid dec s' r :
+  sinv now s -> ent_exec now s (EDecide sg poid dec) = Ok (s', r) -> sinv now s'.
+Proof.
+  intros I H. apply exec_decide_inv in H as (_ & Hd & _ & o & G & St & NI & ->).
+  eapply sinv_replace_same; eauto; try reflexivity.
+  pose proof (si_po _ _ I _ _ G) as []. constructor; cbn; auto.
+  - rewrite map_app. cbn. apply NoDup_snoc; auto.
+  - apply Forall_app. split; [auto|]. constructor; [exact Hd|constructor].
+Qed.
+
+Lemma exec_whitelist_inv now s sg t act s' r :
+  ent_exec now s (EWhitelist sg t act) = Ok (s', r) ->
+  is_signer s sg = true /\ r = 0 /\
+  exists wl', s' = {| e_params := e_params s; e_next := e_next s; e_pos := e_pos s;
+                      e_raisedq := e_raisedq s; e_acceptedq := e_acceptedq s; e_wl := wl';
+                      e_locked := e_locked s; e_spent := e_spent s;
+                      e_totlocked := e_totlocked s; e_totspent := e_totspent s |}.
+Proof.
+  cbn [ent_exec].
+  destruct (is_signer s sg) eqn:E1; cbn [negb]; [|discriminate].
+  destruct ((act =? 1) || (act =? 2)) eqn:E2; cbn [negb]; [|discriminate].
+  destruct (act =? 1) eqn:E3; destruct (mem_addr t (e_wl s)) eqn:E4; try discriminate;
+    intros [= <- <-]; (split; [reflexivity|]); (split; [reflexivity|]); eauto.
+Qed.
+
+(* changing only the whitelist (or nothing the invariant reads) *)
+Lemma sinv_same_but_wl now s wl' :
+  sinv now s ->
+  sinv now {| e_params := e_params s; e_next := e_next s; e_pos := e_pos s;
+              e_raisedq := e_raisedq s; e_acceptedq := e_acceptedq s; e_wl := wl';
+              e_locked := e_locked s; e_spent := e_spent s;
+              e_totlocked := e_totlocked s; e_totspent := e_totspent s |}.
+Proof. intros []. constructor; sproj; auto. Qed.
+
+Lemma sinv_exec now s m s' r :
+  sinv now s -> 0 <= ent_signer m -> 0 <= now -> ent_exec now s m = Ok (s', r) -> sinv now s'.
+Proof.
+  intros I Hs Hn H. destruct m as [p d amt|sg poid dec|sg t act]; cbn [ent_signer] in Hs.
+  - exact (sinv_raise _ _ _ _ _ _ _ I Hs Hn H).
+  - eapply sinv_decide; eauto.
+  - apply exec_whitelist_inv in H as (_ & _ & wl' & ->). apply sinv_same_but_wl; auto.
+Qed.
+
+(* what a message can change outside the order table *)
+Lemma exec_frame now s m s' r :
+  ent_exec now s m = Ok (s', r) ->
+  e_params s' = e_params s /\ e_locked s' = e_locked s /\ e_spent s' = e_spent s /\
+  e_totlocked s' = e_totlocked s /\ e_totspent s' = e_totspent s /\ e_acceptedq s' = e_acceptedq s.
+Proof.
+  intros H. destruct m as [p d amt|sg poid dec|sg t act].
+  - apply exec_raise_inv in H as (_ & _ & _ & _ & ->). cbn. repeat split.
+  - apply exec_decide_inv in H as (_ & _ & _ & o & _ & _ & _ & ->). cbn. repeat split.
+  - apply exec_whitelist_inv in H as (_ & _ & wl' & ->). cbn. repeat split.
+Qed.
+
+Lemma total_locked_frame s s' :
+  e_params s' = e_params s -> e_totlocked s' = e_totlocked s -> total_locked s' = total_locked s.
+Proof. intros E1 E2. unfold total_locked. rewrite E1, E2. reflexivity. Qed.
+
+Lemma ent_inv_msg w m w' :
+  ent_inv w -> ent_op_wf w (OMsg m) -> ent_step w (OMsg m) = Some w' -> ent_inv w'.
+Proof.
+  intros I [Hs _] H. cbn [ent_step] in H.
+  destruct (ent_validate_basic m); [|injection H as <-; exact I..].
+  destruct (ent_exec (w_now w) (w_ent w) m) as [[s' r]| |] eqn:E; injection H as <-; try exact I.
+  pose proof (exec_frame _ _ _ _ _ E) as (Ep & _ & _ & Etl & _).
+  destruct I as [Is In Ie Ie0]. constructor; sproj; auto.
+  - eapply sinv_exec; eauto. lia.
+  - unfold dn. rewrite Ep, (total_locked_frame _ _ Ep Etl). exact Ie.
+  - unfold dn. rewrite Ep. exact Ie0.
+Qed.
+
+(* ================================================================= *)
+(* parameter change                                                   *)
+(* ================================================================= *)
+
+Definition set_params_state (s : ent_state) (p : ent_params) : ent_state :=
+  {| e_params := p; e_next := e_next s; e_pos := e_pos s; e_raisedq := e_raisedq s;
+     e_acceptedq := e_acceptedq s; e_wl := e_wl s; e_locked := e_locked s; e_spent := e_spent s;
+     e_totlocked := e_totlocked s; e_totspent := e_totspent s |}.
+
+Lemma set_params_inv s p s' :
+  ent_set_params s p = Ok s' -> ent_params_valid p = true /\ s' = set_params_state s p.
+Proof.
+  unfold ent_set_params. destruct (ent_params_valid p); [|discriminate].
+  intros [= <-]. split; reflexivity.
+Qed.
+
+Lemma sinv_set_params now s p :
+  sinv now s -> ent_params_valid p = true -> ep_denom p = dn s -> sinv now (set_params_state s p).
+Proof.
+  intros I V D.
+  assert (Dn : dn (set_params_state s p) = dn s) by exact D.
+  assert (TL : total_locked (set_params_state s p) = total_locked s).
+  { unfold total_locked; cbn. rewrite D. reflexivity. }
+  assert (TS : total_spent (set_params_state s p) = total_spent s).
+  { unfold total_spent; cbn. rewrite D. reflexivity. }
+  destruct I. constructor; rewrite ?Dn, ?TL, ?TS; sproj; auto.
+Qed.
+
+Lemma ent_inv_set_params w p w' :
+  ent_inv w -> ent_op_wf w (OSetParams p) -> ent_step w (OSetParams p) = Some w' -> ent_inv w'.
+Proof.
+  intros I D H. cbn [ent_step ent_op_wf] in *.
+  destruct (ent_set_params (w_ent w) p) as [s'| |] eqn:E; injection H as <-; try exact I.
+  apply set_params_inv in E as (V & ->).
+  destruct I as [Is In Ie Ie0]. constructor; sproj; auto.
+  - apply sinv_set_params; auto.
+  - replace (dn (set_params_state (w_ent w) p)) with (dn (w_ent w)) by (symmetry; exact D).
+    replace (total_locked (set_params_state (w_ent w) p)) with (total_locked (w_ent w)); [exact Ie|].
+    unfold total_locked; cbn. rewrite D. reflexivity.
+  - intros d. replace (dn (set_params_state (w_ent w) p)) with (dn (w_ent w)) by (symmetry; exact D).
+    apply Ie0.
+Qed.
+
+(* ================================================================= *)
+(* the locked / spent books                                           *)
+(* ================================================================= *)
+
+Lemma locked_coin_ok now s a : sinv now s -> coin_ok (dn s) (locked_coin s a).
+Proof.
+  intros I. unfold locked_coin. destruct (aget a (e_locked s)) as [c|] eqn:G.
+  - eapply si_locked; eauto.
+  - split; cbn; [reflexivity|lia].
+Qed.
+
+Lemma spent_coin_ok now s a : sinv now s -> coin_ok (dn s) (spent_coin s a).
+Proof.
+  intros I. unfold spent_coin. destruct (aget a (e_spent s)) as [c|] eqn:G.
+  - eapply si_spent; eauto.
+  - split; cbn; [reflexivity|lia].
+Qed.
+
+Lemma snd_locked_coin s a : snd (locked_coin s a) = amount_coin s a (e_locked s).
+Proof. unfold locked_coin, amount_coin. destruct (aget a (e_locked s)); reflexivity. Qed.
+
+Lemma snd_spent_coin s a : snd (spent_coin s a) = amount_coin s a (e_spent s).
+Proof. unfold spent_coin, amount_coin. destruct (aget a (e_spent s)); reflexivity. Qed.
+
+Lemma locked_le_total now s a : sinv now s -> snd (locked_coin s a) <= snd (total_locked s).
+Proof.
+  intros I. rewrite (si_sum_l _ _ I). unfold locked_coin.
+  destruct (aget a (e_locked s)) as [c|] eqn:G.
+  - apply (asum_nonneg_ge snd (e_locked s) a c); [|exact G].
+    intros k v In. apply (In_aget_NoDup _ _ _ (si_nd_locked _ _ I)) in In.
+    apply (si_locked _ _ I) in In. apply In.
+  - cbn. rewrite <- (si_sum_l _ _ I). apply (si_tl _ _ I).
+Qed.
+
+Lemma increment_locked_spec s a u :
+  fst (locked_coin s a) = dn s -> fst (total_locked s) = dn s -> 0 <= snd (locked_coin s a) + u ->
+  increment_locked s a (dn s, u) =
+  Ok (with_books s (aset a (dn s, snd (locked_coin s a) + u) (e_locked s)) (e_spent s)
+                   (Some (dn s, snd (total_locked s) + u)) (e_totspent s)).
+Proof.
+  intros E1 E2 P. unfold increment_locked, coin_add. cbn [fst snd].
+  rewrite E1, E2, Z.eqb_refl. cbn [obind snd].
+  destruct (snd (locked_coin s a) + u <? 0) eqn:E; [lia|]. reflexivity.
+Qed.
+
+Lemma decrement_locked_spec s a u :
+  fst (locked_coin s a) = dn s -> fst (total_locked s) = dn s ->
+  u <= snd (locked_coin s a) -> u <= snd (total_locked s) ->
+  decrement_locked s a (dn s, u) =
+  Ok (with_books s (aset a (dn s, snd (locked_coin s a) - u) (e_locked s)) (e_spent s)
+                   (Some (dn s, snd (total_locked s) - u)) (e_totspent s)).
+Proof.
+  intros E1 E2 P1 P2. unfold decrement_locked, safesub_neg. cbn [fst snd].
+  rewrite E1, E2, Z.eqb_refl.
+  destruct (snd (locked_coin s a) <? u) eqn:X1; [lia|].
+  destruct (snd (total_locked s) <? u) eqn:X2; [lia|]. reflexivity.
+Qed.
+
+Lemma increment_spent_spec s a u :
+  fst (spent_coin s a) = dn s -> fst (total_spent s) = dn s ->
+  increment_spent s a (dn s, u) =
+  Ok (with_books s (e_locked s) (aset a (dn s, snd (spent_coin s a) + u) (e_spent s))
+                   (e_totlocked s) (Some (dn s, snd (total_spent s) + u))).
+Proof.
+  intros E1 E2. unfold increment_spent, coin_add. cbn [fst snd].
+  rewrite E1, E2, Z.eqb_refl. reflexivity.
+Qed.
+
+Lemma asum_snd_aset s (m : amap addr coin) a c :
+  asum snd (aset a c m) = asum snd m - amount_coin s a m + snd c.
+Proof. unfold amount_coin. rewrite asum_aset. reflexivity. Qed.
+
+Lemma amount_coin_aset s s' a' a c (m : amap addr coin) :
+  amount_coin s' a' (aset a c m) = if a' =? a then snd c else amount_coin s a' m.
+Proof. unfold amount_coin. rewrite aget_aset_Z. destruct (a' =? a); reflexivity. Qed.
+
+(* the state after unlocking [u] for [a] *)
+Definition unlock_state (s : ent_state) (a : addr) (u : Z) : ent_state :=
+  {| e_params := e_params s; e_next := e_next s; e_pos := e_pos s; e_raisedq := e_raisedq s;
+     e_acceptedq := e_acceptedq s; e_wl := e_wl s;
+     e_locked := aset a (dn s, snd (locked_coin s a) - u) (e_locked s);
+     e_spent := aset a (dn s, snd (spent_coin s a) + u) (e_spent s);
+     e_totlocked := Some (dn s, snd (total_locked s) - u);
+     e_totspent := Some (dn s, snd (total_spent s) + u) |}.
+
+Lemma dec_inc_spec now s a u :
+  sinv now s -> u <= snd (locked_coin s a) ->
+  (do s1 <- decrement_locked s a (dn s, u); increment_spent s1 a (dn s, u)) = Ok (unlock_state s a u).
+Proof.
+  intros I P.
+  pose proof (locked_coin_ok _ _ a I) as [L1 L2]. pose proof (spent_coin_ok _ _ a I) as [S1 S2].
+  pose proof (si_tl _ _ I) as [T1 T2]. pose proof (si_ts _ _ I) as [U1 U2].
+  pose proof (locked_le_total _ _ a I) as LT.
+  rewrite decrement_locked_spec by (auto; lia). cbn [obind].
+  match goal with |- increment_spent ?s1 _ _ = _ => exact (increment_spent_spec s1 a u S1 U1) end.
+Qed.
+
+Lemma sinv_unlock_state now s a u :
+  sinv now s -> 0 <= u <= snd (locked_coin s a) -> sinv now (unlock_state s a u).
+Proof.
+  intros I P.
+  pose proof (locked_coin_ok _ _ a I) as [L1 L2]. pose proof (spent_coin_ok _ _ a I) as [S1 S2].
+  pose proof (si_tl _ _ I) as [T1 T2]. pose proof (si_ts _ _ I) as [U1 U2].
+  pose proof (locked_le_total _ _ a I) as LT.
+  pose proof (snd_locked_coin s a) as SL. pose proof (snd_spent_coin s a) as SS.
+  assert (Dn : dn (unlock_state s a u) = dn s) by reflexivity.
+  destruct I. constructor; rewrite ?Dn; unfold unlock_state; sproj; auto.
+  - apply NoDup_akeys_aset; auto.
+  - apply NoDup_akeys_aset; auto.
+  - intros a' c. rewrite aget_aset_Z. destruct (a' =? a).
+    + intros [= <-]. split; cbn; [reflexivity|lia].
+    + apply si_locked0.
+  - intros a' c. rewrite aget_aset_Z. destruct (a' =? a).
+    + intros [= <-]. split; cbn; [reflexivity|lia].
+    + apply si_spent0.
+  - split; cbn; [reflexivity|lia].
+  - split; cbn; [reflexivity|lia].
+  - unfold total_locked at 1; cbn [e_totlocked snd]. rewrite (asum_snd_aset s). cbn [snd]. lia.
+  - unfold total_spent at 1; cbn [e_totspent snd]. rewrite (asum_snd_aset s). cbn [snd]. lia.
+  - intros a'. unfold completed_sum; sproj. fold (completed_sum s a').
+    rewrite <- si_acct0. unfold amount_coin in *. rewrite !aget_aset_Z.
+    destruct (a' =? a) eqn:E; [|reflexivity]. assert (a' = a) as -> by lia. cbn [snd]. lia.
+Qed.
+
+Definition dec_state (s : ent_state) (a : addr) (u : Z) : ent_state :=
+  with_books s (aset a (dn s, snd (locked_coin s a) - u) (e_locked s)) (e_spent s)
+             (Some (dn s, snd (total_locked s) - u)) (e_totspent s).
+
+Lemma dec_spec now s a u :
+  sinv now s -> u <= snd (locked_coin s a) ->
+  decrement_locked s a (dn s, u) = Ok (dec_state s a u).
+Proof.
+  intros I P.
+  pose proof (locked_coin_ok _ _ a I) as [L1 L2]. pose proof (si_tl _ _ I) as [T1 T2].
+  pose proof (locked_le_total _ _ a I) as LT.
+  apply decrement_locked_spec; auto; lia.
+Qed.
+
+Lemma inc_spec now s a u :
+  sinv now s -> increment_spent (dec_state s a u) a (dn s, u) = Ok (unlock_state s a u).
+Proof.
+  intros I.
+  pose proof (spent_coin_ok _ _ a I) as [S1 S2]. pose proof (si_ts _ _ I) as [U1 U2].
+  exact (increment_spent_spec (dec_state s a u) a u S1 U1).
+Qed.
+
+(* ================================================================= *)
+(* fee unlocking                                                      *)
+(* ================================================================= *)
+
+Lemma fee_amount_notin fee d : ~ In d (map fst fee) -> fee_amount_of fee d = 0.
+Proof.
+  unfold fee_amount_of. induction fee as [|c r IH]; cbn; [reflexivity|].
+  intros N. destruct (_ =? d) eqn:E.
+  - exfalso. apply N. left. apply Z.eqb_eq in E. exact E.
+  - rewrite IH; [reflexivity|tauto].
+Qed.
+
+Lemma fee_find_amount fee d c :
+  NoDup (map fst fee) -> fee_find fee d = Some c ->
+  fst c = d /\ fee_amount_of fee d = snd c /\ In c fee.
+Proof.
+  unfold fee_find. induction fee as [|c0 r IH]; cbn; [discriminate|].
+  intros ND. inversion ND as [|? ? NI ND']; subst.
+  unfold fee_amount_of; cbn. fold (fee_amount_of r d).
+  destruct (_ =? d) eqn:E.
+  - apply Z.eqb_eq in E. intros [= <-].
+    rewrite fee_amount_notin by (rewrite <- E; exact NI). split; [exact E|]. split; [apply Z.add_0_r|]. left; reflexivity.
+  - intros F. destruct (IH ND' F) as (A & B & C). repeat split; auto.
+Qed.
+
+Lemma fee_find_none_amount fee d : fee_find fee d = None -> fee_amount_of fee d = 0.
+Proof.
+  unfold fee_find, fee_amount_of, coin, denom in *. induction fee as [|c0 r IH]; cbn; [reflexivity|].
+  destruct (fst c0 =? d); [discriminate|]. intros F. rewrite IH; auto.
+Qed.
+
+Lemma undelegate_all_only_d b a cs d b1 :
+  (forall d', d' <> d -> balance b ENT_MACC d' = 0) -> Forall (fun c => 0 < snd c) cs ->
+  undelegate_all b a cs = Ok b1 -> Forall (fun c => fst c = d) cs.
+Proof.
+  revert b. induction cs as [|c r IH]; intros b Z0 P U; [constructor|].
+  inversion P as [|? ? Pc Pr]; subst. cbn [undelegate_all] in U.
+  destruct (bank_send b ENT_MACC a (fst c) (snd c)) as [b2| |] eqn:S; cbn [obind] in U; try discriminate.
+  apply bank_send_spec in S as (S0 & S1 & Sb & _).
+  assert (E : fst c = d).
+  { destruct (Z.eq_dec (fst c) d) as [E|N]; [exact E|]. rewrite (Z0 _ N) in S1. lia. }
+  constructor; [exact E|]. apply (IH b2); auto.
+  intros d' N. rewrite Sb, (Z0 _ N). rewrite E.
+  destruct (Z.eqb_spec d' d); [contradiction|]. rewrite !andb_false_r. lia.
+Qed.
+
+Lemma single_denom_fee fee d c :
+  Forall (fun c => fst c = d) fee -> NoDup (map fst fee) -> fee_find fee d = Some c -> fee = [c].
+Proof.
+  intros F ND Fi. destruct fee as [|c0 [|c1 r]]; cbn in *.
+  - discriminate.
+  - inversion F; subst. unfold fee_find in Fi; cbn in Fi. rewrite Z.eqb_refl in Fi. injection Fi as ->. reflexivity.
+  - exfalso. inversion F as [|? ? E0 F']; subst. inversion F' as [|? ? E1 _]; subst.
+    inversion ND as [|? ? NI _]; subst. apply NI. left. congruence.
+Qed.
+
+Lemma pair_eta {A B} (p : A * B) a : fst p = a -> p = (a, snd p).
+Proof. destruct p; cbn; congruence. Qed.
+
+Lemma unlock_ok_inv now b s payer fee b' s' :
+  sinv now s ->
+  (forall d, d <> dn s -> balance b ENT_MACC d = 0) ->
+  Forall (fun c => 0 < snd c) fee -> NoDup (map fst fee) ->
+  unlock_for_fees b s payer fee = Ok (b', s') ->
+  let L := snd (locked_coin s payer) in
+  let f := fee_amount_of fee (dn s) in
+  fee_find fee (dn s) <> None /\
+  ( (f <= L /\ fee = [(dn s, f)] /\
+     bank_send b ENT_MACC payer (dn s) f = Ok b' /\ s' = unlock_state s payer f)
+  \/ (L < f <= balance b payer (dn s) + L /\
+     bank_send b ENT_MACC payer (dn s) L = Ok b' /\ s' = unlock_state s payer L)
+  \/ (L < f /\ balance b payer (dn s) + L < f /\ b' = b /\ s' = s)).
+Proof.
+  intros I Z0 P ND H. cbv zeta.
+  unfold unlock_for_fees in H. cbv zeta in H. change (ep_denom (e_params s)) with (dn s) in H.
+  destruct (fee_find fee (dn s)) as [c|] eqn:Fi; [|discriminate].
+  split; [discriminate|].
+  destruct (fee_find_amount _ _ _ ND Fi) as (Ec & Ef & Ic).
+  pose proof (locked_coin_ok _ _ payer I) as [L1 L2].
+  unfold safesub_neg in H. rewrite L1, Ec, Z.eqb_refl in H.
+  rewrite (pair_eta _ _ L1) in H. cbn [fst snd] in H.
+  set (L := snd (locked_coin s payer)) in *. rewrite <- Ef in H.
+  set (f := fee_amount_of fee (dn s)) in *.
+  destruct (L <? f) eqn:C1; cbn [negb] in H.
+  - (* second branch *)
+    destruct (balance b payer (dn s) + L <? f) eqn:C2; cbn [negb] in H.
+    + injection H as <- <-. right; right. repeat split; lia.
+    + destruct (bank_send b ENT_MACC payer (dn s) L) as [b1| |] eqn:S; cbn [obind] in H; try discriminate.
+      unfold L in H at 1. rewrite (dec_spec now) in H by (auto; lia). cbn [obind] in H.
+      rewrite (inc_spec now) in H by auto. cbn [obind] in H. injection H as <- <-.
+      right; left. repeat split; auto; lia.
+  - (* first branch *)
+    destruct (undelegate_all b payer fee) as [b1| |] eqn:U; cbn [obind] in H; try discriminate.
+    rewrite (dec_spec now) in H by (auto; lia). cbn [obind] in H.
+    rewrite (inc_spec now) in H by auto. cbn [obind] in H. injection H as <- <-.
+    pose proof (undelegate_all_only_d _ _ _ _ _ Z0 P U) as F.
+    pose proof (single_denom_fee _ _ _ F ND Fi) as Efee.
+    left. split; [lia|]. split; [rewrite Efee, (pair_eta _ _ Ec), Ef; reflexivity|].
+    split; [|reflexivity].
+    rewrite Efee in U. cbn [undelegate_all] in U. rewrite Ec, <- Ef in U.
+    destruct (bank_send b ENT_MACC payer (dn s) f); cbn [obind] in U; congruence.
+Qed.
+
+Lemma ent_inv_unlock_u w payer u b' :
+  ent_inv w -> 0 <= payer -> u <= snd (locked_coin (w_ent w) payer) ->
+  bank_send (w_bank w) ENT_MACC payer (dn (w_ent w)) u = Ok b' ->
+  ent_inv {| w_bank := b'; w_ent := unlock_state (w_ent w) payer u; w_now := w_now w |}.
+Proof.
+  intros [Is In Ie Ie0] Hp Hu S. apply bank_send_spec in S as (S0 & S1 & Sb & _).
+  constructor; sproj; auto.
+  - apply sinv_unlock_state; auto.
+  - change (dn (unlock_state (w_ent w) payer u)) with (dn (w_ent w)).
+    unfold total_locked at 1; cbn [unlock_state e_totlocked snd].
+    rewrite Sb, Ie. unfold ENT_MACC in *. rewrite !Z.eqb_refl.
+    destruct (Z.eqb_spec (-1) payer); [lia|]. cbn [andb]. lia.
+  - intros d N. change (dn (unlock_state (w_ent w) payer u)) with (dn (w_ent w)) in N.
+    rewrite Sb, (Ie0 _ N). destruct (Z.eqb_spec d (dn (w_ent w))); [contradiction|].
+    rewrite !andb_false_r. lia.
+Qed.
+
+Lemma ent_inv_unlock w payer fee w' :
+  ent_inv w -> ent_op_wf w (OUnlock payer fee) -> ent_step w (OUnlock payer fee) = Some w' -> ent_inv w'.
+Proof.
+  intros I (Hp & P & ND) H. cbn [ent_step] in H.
+  destruct (unlock_for_fees (w_bank w) (w_ent w) payer fee) as [[b' s']| |] eqn:E;
+    injection H as <-; try exact I.
+  eapply unlock_ok_inv in E; eauto using inv_s, inv_escrow0.
+  destruct E as (_ & [(C1 & _ & S & ->)|[(C1 & S & ->)|(_ & _ & -> & ->)]]).
+  - apply ent_inv_unlock_u; auto.
+  - apply ent_inv_unlock_u; auto. lia.
+  - destruct w; exact I.
+Qed.
+
+(* ================================================================= *)
+(* BeginBlock, part 1: completing accepted orders                     *)
+(* ================================================================= *)
+
+Definition binv (b : bank) (s : ent_state) : Prop :=
+  balance b ENT_MACC (dn s) = snd (total_locked s) /\
+  (forall d, d <> dn s -> balance b ENT_MACC d = 0).
+
+Definition minted (b b' : bank) (d : denom) (amt : Z) : Prop :=
+  (forall a d', balance b' a d' = balance b a d' + (if (a =? ENT_MACC) && (d' =? d) then amt else 0)) /\
+  (forall d', supply_of b' d' = supply_of b d' + (if d' =? d then amt else 0)).
+
+Definition lock_state (s : ent_state) (a : addr) (amt : Z) : ent_state :=
+  with_books s (aset a (dn s, snd (locked_coin s a) + amt) (e_locked s)) (e_spent s)
+             (Some (dn s, snd (total_locked s) + amt)) (e_totspent s).
+
+Lemma mint_and_lock_inv b s a amt b' s' :
+  0 < amt -> 0 <= a -> coin_ok (dn s) (locked_coin s a) -> coin_ok (dn s) (total_locked s) ->
+  mint_and_lock b s a (dn s, amt) = Ok (b', s') ->
+  s' = lock_state s a amt /\ minted b b' (dn s) amt.
+Proof.
+  intros Pa Ha [L1 L2] [T1 T2]. unfold mint_and_lock. cbn [fst snd].
+  destruct (amt =? 0) eqn:E0; [lia|].
+  destruct (bank_mint b ENT_MACC (dn s) amt) as [b1| |] eqn:M; cbn [obind]; try discriminate.
+  unfold bank_send_m2a. rewrite (blocked_nonneg a Ha).
+  destruct (bank_send b1 ENT_MACC a (dn s) amt) as [b2| |] eqn:S1; cbn [obind]; try discriminate.
+  destruct (bank_send b2 a ENT_MACC (dn s) amt) as [b3| |] eqn:S2; cbn [obind]; try discriminate.
+  rewrite increment_locked_spec by (auto; lia). cbn [obind]. intros [= <- <-].
+  split; [reflexivity|].
+  apply bank_mint_spec in M as (_ & Mb & Ms).
+  apply bank_send_spec in S1 as (_ & _ & Sb1 & Ss1).
+  apply bank_send_spec in S2 as (_ & _ & Sb2 & Ss2).
+  split.
+  - intros a' d'. rewrite Sb2, Sb1, Mb.
+    destruct ((a' =? a) && (d' =? dn s)); destruct ((a' =? ENT_MACC) && (d' =? dn s)); lia.
+  - intros d'. rewrite Ss2, Ss1, Ms. reflexivity.
+Qed.
+
+Lemma mint_and_lock_ok b s a amt :
+  0 < amt -> 0 <= a -> coin_ok (dn s) (locked_coin s a) -> coin_ok (dn s) (total_locked s) ->
+  0 <= balance b a (dn s) -> 0 <= balance b ENT_MACC (dn s) ->
+  exists b', mint_and_lock b s a (dn s, amt) = Ok (b', lock_state s a amt).
+Proof.
+  intros Pa Ha [L1 L2] [T1 T2] Nn Ne. unfold mint_and_lock. cbn [fst snd].
+  destruct (amt =? 0) eqn:E0; [lia|].
+  destruct (bank_mint_ok b ENT_MACC (dn s) amt) as (b1 & M); [lia|]. rewrite M. cbn [obind].
+  pose proof (bank_mint_spec _ _ _ _ _ M) as (_ & Mb & _).
+  unfold bank_send_m2a. rewrite (blocked_nonneg a Ha).
+  assert (a <> ENT_MACC) as Na by (unfold ENT_MACC; lia).
+  destruct (bank_send_ok b1 ENT_MACC a (dn s) amt) as (b2 & S1); [lia| |].
+  { rewrite Mb, !Z.eqb_refl. cbn [andb]. lia. }
+  rewrite S1. cbn [obind].
+  pose proof (bank_send_spec _ _ _ _ _ _ S1) as (_ & _ & Sb1 & _).
+  destruct (bank_send_ok b2 a ENT_MACC (dn s) amt) as (b3 & S2); [lia| |].
+  { rewrite Sb1, Mb, !Z.eqb_refl.
+    destruct (Z.eqb_spec a ENT_MACC); [contradiction|]. cbn [andb]. lia. }
+  rewrite S2. cbn [obind].
+  rewrite increment_locked_spec by (auto; lia). cbn [obind]. eauto.
+Qed.
+
+Definition complete_one (id : Z) (b : bank) (s : ent_state) : outcome (bank * ent_state) :=
+  match aget id (e_pos s) with
+  | None => Panic PANIC_BLOCKER
+  | Some o =>
+      if negb (po_status o =? ST_ACCEPTED) then Panic PANIC_BLOCKER else
+      let s1 := with_pos s (aset id (set_po_status o ST_COMPLETED 0 false) (e_pos s))
+                         (e_raisedq s) (e_acceptedq s) in
+      if po_purchaser o =? BAD_ADDR then Panic PANIC_BLOCKER else
+      match mint_and_lock b s1 (po_purchaser o) (po_denom o, po_amount o) with
+      | Ok (b2, s2) => Ok (b2, with_pos s2 (e_pos s2) (e_raisedq s2) (remove_z id (e_acceptedq s2)))
+      | Err _ => Panic PANIC_BLOCKER
+      | Panic c => Panic c
+      end
+  end.
+
+Lemma process_accepted_cons id rest b s :
+  process_accepted (id :: rest) b s =
+  match complete_one id b s with
+  | Ok (b2, s2) => process_accepted rest b2 s2
+  | Err c => Err c
+  | Panic c => Panic c
+  end.
+Proof.
+  unfold complete_one. cbn [process_accepted].
+  destruct (aget id (e_pos s)) as [o|]; [|reflexivity].
+  destruct (negb (po_status o =? ST_ACCEPTED)); [reflexivity|]. cbv zeta.
+  destruct (po_purchaser o =? BAD_ADDR); [reflexivity|].
+  destruct (mint_and_lock _ _ _ _) as [[b2 s2]| |]; reflexivity.
+Qed.
+
+Definition complete_state (s : ent_state) (id : Z) (o : po) : ent_state :=
+  {| e_params := e_params s; e_next := e_next s;
+     e_pos := aset id (set_po_status o ST_COMPLETED 0 false) (e_pos s);
+     e_raisedq := e_raisedq s; e_acceptedq := remove_z id (e_acceptedq s); e_wl := e_wl s;
+     e_locked := aset (po_purchaser o)
+                      (dn s, snd (locked_coin s (po_purchaser o)) + po_amount o) (e_locked s);
+     e_spent := e_spent s;
+     e_totlocked := Some (dn s, snd (total_locked s) + po_amount o);
+     e_totspent := e_totspent s |}.
+
+Lemma complete_one_inv now id b s b' s' :
+  sinv now s -> complete_one id b s = Ok (b', s') ->
+  exists o, aget id (e_pos s) = Some o /\ po_status o = ST_ACCEPTED /\
+            s' = complete_state s id o /\ minted b b' (dn s) (po_amount o).
+Proof.
+  intros I. unfold complete_one.
+  destruct (aget id (e_pos s)) as [o|] eqn:G; [|discriminate].
+  destruct (po_status o =? ST_ACCEPTED) eqn:St; cbn [negb]; [|discriminate]. cbv zeta.
+  destruct (po_purchaser o =? BAD_ADDR) eqn:Eb; [discriminate|].
+  pose proof (si_po _ _ I _ _ G) as K. rewrite (pk_denom _ _ _ _ _ K).
+  set (s1 := with_pos s _ _ _).
+  destruct (mint_and_lock b s1 (po_purchaser o) (dn s, po_amount o)) as [[b2 s2]| |] eqn:M;
+    try discriminate.
+  intros [= <- <-].
+  change (dn s) with (dn s1) in M.
+  apply mint_and_lock_inv in M as (-> & Mi).
+  - exists o. split; [reflexivity|]. split; [lia|]. split; [reflexivity|exact Mi].
+  - apply K.
+  - apply K.
+  - exact (locked_coin_ok _ _ (po_purchaser o) I).
+  - exact (si_tl _ _ I).
+Qed.
+
+Lemma complete_one_ok now id b s o :
+  sinv now s -> binv b s -> bank_nonneg b ->
+  aget id (e_pos s) = Some o -> po_status o = ST_ACCEPTED ->
+  exists b', complete_one id b s = Ok (b', complete_state s id o).
+Proof.
+  intros I [B1 B2] Nn G St. unfold complete_one. rewrite G.
+  destruct (po_status o =? ST_ACCEPTED) eqn:St'; [|lia]. cbn [negb]. cbv zeta.
+  pose proof (si_po _ _ I _ _ G) as K.
+  destruct (po_purchaser o =? BAD_ADDR) eqn:Eb.
+  { pose proof (pk_purch _ _ _ _ _ K). unfold BAD_ADDR in Eb. lia. }
+  rewrite (pk_denom _ _ _ _ _ K).
+  set (s1 := with_pos s _ _ _).
+  destruct (mint_and_lock_ok b s1 (po_purchaser o) (po_amount o)) as (b2 & M).
+  - apply K.
+  - apply K.
+  - exact (locked_coin_ok _ _ (po_purchaser o) I).
+  - exact (si_tl _ _ I).
+  - apply Nn.
+  - apply Nn.
+  - change (dn s1) with (dn s) in M. rewrite M. exists b2. reflexivity.
+Qed.
+
+Lemma set_status_ok nx d now id o st now' fl :
+  po_ok nx d now id o -> st_valid st -> po_ok nx d now id (set_po_status o st now' fl).
+Proof. intros [] V. constructor; cbn; auto. Qed.
+
+Lemma sinv_complete_state now s id o :
+  sinv now s -> aget id (e_pos s) = Some o -> po_status o = ST_ACCEPTED ->
+  sinv now (complete_state s id o).
+Proof.
+  intros I G St.
+  pose proof (si_po _ _ I _ _ G) as K.
+  pose proof (locked_coin_ok _ _ (po_purchaser o) I) as [L1 L2].
+  pose proof (si_tl _ _ I) as [T1 T2].
+  pose proof (snd_locked_coin s (po_purchaser o)) as SL.
+  pose proof (pk_amt _ _ _ _ _ K) as Pa.
+  assert (So : status_of s id = ST_ACCEPTED) by (unfold status_of; rewrite G; exact St).
+  assert (Dn : dn (complete_state s id o) = dn s) by reflexivity.
+  assert (SS : forall id', status_of (complete_state s id o) id'
+                           = if id' =? id then ST_COMPLETED else status_of s id').
+  { intros id'. erewrite status_of_aset by reflexivity. reflexivity. }
+  destruct I. constructor; rewrite ?Dn; try (unfold complete_state; sproj; auto; fail).
+  - unfold complete_state; sproj. apply NoDup_akeys_aset; auto.
+  - unfold complete_state; sproj. apply NoDup_akeys_aset; auto.
+  - unfold complete_state; sproj. apply NoDup_remove_z; auto.
+  - unfold complete_state; sproj. intros id' o'. rewrite aget_aset_Z.
+    destruct (Z.eqb_spec id' id) as [->|N].
+    + intros [= <-]. apply set_status_ok; auto. unfold st_valid; auto.
+    + apply si_po0.
+  - intros id'. rewrite SS. unfold complete_state; sproj.
+    destruct (Z.eqb_spec id' id) as [->|N]; [|apply si_rq0].
+    rewrite si_rq0, So. stu. split; discriminate.
+  - intros id'. rewrite SS. unfold complete_state; sproj. rewrite In_remove_z.
+    destruct (Z.eqb_spec id' id) as [->|N].
+    + stu. split; [tauto|discriminate].
+    + rewrite si_aq0. tauto.
+  - unfold complete_state; sproj. intros a' c. rewrite aget_aset_Z. destruct (a' =? po_purchaser o).
+    + intros [= <-]. split; cbn; [reflexivity|lia].
+    + apply si_locked0.
+  - split; cbn; [reflexivity|lia].
+  - unfold total_locked at 1. unfold complete_state; sproj. cbn [snd].
+    rewrite (asum_snd_aset s). cbn [snd]. lia.
+  - intros a'. erewrite completed_sum_aset by reflexivity. rewrite G.
+    change (amount_coin (complete_state s id o) a') with (amount_coin s a').
+    unfold complete_state; sproj. rewrite <- si_acct0.
+    unfold csum_f; cbn [set_po_status po_status po_purchaser po_amount]. rewrite St.
+    rewrite (amount_coin_aset s).
+    change (ST_ACCEPTED =? ST_COMPLETED) with false. change (ST_COMPLETED =? ST_COMPLETED) with true.
+    cbn [andb]. rewrite (Z.eqb_sym (po_purchaser o) a').
+    destruct (a' =? po_purchaser o) eqn:E; [|lia]. assert (a' = po_purchaser o) as -> by lia.
+    cbn [snd]. lia.
+Qed.
+
+Lemma binv_complete b b' s id o :
+  binv b s -> minted b b' (dn s) (po_amount o) -> binv b' (complete_state s id o).
+Proof.
+  intros [B1 B2] [Mb _]. split.
+  - change (dn (complete_state s id o)) with (dn s). rewrite Mb, !Z.eqb_refl. cbn [andb].
+    unfold total_locked at 1. cbn [complete_state e_totlocked snd]. lia.
+  - intros d N. change (dn (complete_state s id o)) with (dn s) in N.
+    rewrite Mb, (B2 _ N). destruct (Z.eqb_spec d (dn s)); [contradiction|].
+    rewrite andb_false_r. lia.
+Qed.
+
+Lemma minted_nonneg b b' d amt : minted b b' d amt -> 0 <= amt -> bank_nonneg b -> bank_nonneg b'.
+Proof. intros [Mb _] P N a d'. rewrite Mb. specialize (N a d'). destruct (_ && _); lia. Qed.
+
+(* the run of ProcessAcceptedPurchaseOrders as a chain of single completions, each from a
+   state satisfying the invariant *)
+Inductive completes (now : Z) : list Z -> bank -> ent_state -> bank -> ent_state -> Prop :=
+| cm_nil b s : sinv now s -> binv b s -> completes now [] b s b s
+| cm_cons id o rest b s b1 b' s' :
+    sinv now s -> binv b s ->
+    aget id (e_pos s) = Some o -> po_status o = ST_ACCEPTED ->
+    minted b b1 (dn s) (po_amount o) ->
+    completes now rest b1 (complete_state s id o) b' s' ->
+    completes now (id :: rest) b s b' s'.
+
+Lemma process_accepted_completes now ids : forall b s b' s',
+  sinv now s -> binv b s ->
+  process_accepted ids b s = Ok (b', s') -> completes now ids b s b' s'.
+Proof.
+  induction ids as [|id rest IH]; intros b s b' s' I B H.
+  - cbn in H. injection H as <- <-. constructor; auto.
+  - rewrite process_accepted_cons in H.
+    destruct (complete_one id b s) as [[b1 s1]| |] eqn:C; try discriminate.
+    destruct (complete_one_inv _ _ _ _ _ _ I C) as (o & G & St & -> & Mi).
+    econstructor; eauto.
+    apply IH; auto.
+    + apply sinv_complete_state; auto.
+    + eapply binv_complete; eauto.
+Qed.
+
+Lemma completes_end now ids b s b' s' :
+  completes now ids b s b' s' -> sinv now s' /\ binv b' s'.
+Proof. induction 1; auto. Qed.
+
+Lemma completes_start now ids b s b' s' :
+  completes now ids b s b' s' -> sinv now s /\ binv b s.
+Proof. destruct 1; auto. Qed.
+
+(* what does not change *)
+Lemma completes_frame now ids b s b' s' :
+  completes now ids b s b' s' ->
+  e_params s' = e_params s /\ e_next s' = e_next s /\ e_raisedq s' = e_raisedq s /\
+  e_wl s' = e_wl s /\ e_spent s' = e_spent s /\ e_totspent s' = e_totspent s.
+Proof.
+  induction 1 as [|id o rest b s b1 b' s' I B G St Mi C IH]; [repeat split|].
+  destruct IH as (A1 & A2 & A3 & A4 & A5 & A6). cbn in *. repeat split; auto.
+Qed.
+
+Lemma completes_accq now ids b s b' s' :
+  completes now ids b s b' s' ->
+  forall x, In x (e_acceptedq s') <-> In x (e_acceptedq s) /\ ~ In x ids.
+Proof.
+  induction 1 as [|id o rest b s b1 b' s' I B G St Mi C IH]; intros x; [cbn; tauto|].
+  rewrite IH. cbn [complete_state e_acceptedq In]. rewrite In_remove_z. intuition.
+Qed.
+
+Lemma completes_pos now ids b s b' s' :
+  completes now ids b s b' s' ->
+  forall x, (~ In x ids -> aget x (e_pos s') = aget x (e_pos s)) /\
+            (In x ids -> exists o, aget x (e_pos s) = Some o /\ po_status o = ST_ACCEPTED /\
+                                   aget x (e_pos s') = Some (set_po_status o ST_COMPLETED 0 false)).
+Proof.
+  induction 1 as [|id o rest b s b1 b' s' I B G St Mi C IH]; intros x; [cbn; tauto|].
+  destruct (IH x) as [IH1 IH2]. cbn [complete_state e_pos] in IH1, IH2.
+  rewrite aget_aset_Z in IH1, IH2. cbn [In]. split.
+  - intros N. destruct (Z.eqb_spec x id) as [E|Nx]; [exfalso; apply N; left; congruence|].
+    apply IH1. tauto.
+  - intros [E|Ix]; [subst x|].
+    + destruct (in_dec Z.eq_dec id rest) as [Ir|Nr].
+      * (* a second occurrence would have to find the order accepted again: impossible *)
+        destruct (IH2 Ir) as (o2 & E2 & St2 & _). rewrite Z.eqb_refl in E2.
+        injection E2 as <-. cbn in St2. stu. discriminate.
+      * exists o. rewrite IH1 by exact Nr. rewrite Z.eqb_refl. auto.
+    + destruct (Z.eqb_spec x id) as [E|Nx].
+      * destruct (IH2 Ix) as (o2 & E2 & St2 & _). injection E2 as <-. cbn in St2. stu. discriminate.
+      * apply IH2; exact Ix.
+Qed.
+
+Lemma completes_ids_accepted now ids b s b' s' :
+  completes now ids b s b' s' -> forall x, In x ids -> In x (e_acceptedq s).
+Proof.
+  intros C x Ix. pose proof (completes_start _ _ _ _ _ _ C) as [I _].
+  destruct (proj2 (completes_pos _ _ _ _ _ _ C x) Ix) as (o & G & St & _).
+  apply (si_aq _ _ I). unfold status_of. rewrite G. exact St.
+Qed.
+
+(* amounts waiting in the accepted queue *)
+Definition acc_f (a : addr) (o : po) : Z :=
+  if (po_status o =? ST_ACCEPTED) && (po_purchaser o =? a) then po_amount o else 0.
+Definition acc_all (o : po) : Z := if po_status o =? ST_ACCEPTED then po_amount o else 0.
+
+Lemma complete_state_potentials s id o :
+  aget id (e_pos s) = Some o -> po_status o = ST_ACCEPTED ->
+  (forall a, amount_coin s a (e_locked (complete_state s id o)) + asum (acc_f a) (e_pos (complete_state s id o))
+             = amount_coin s a (e_locked s) + asum (acc_f a) (e_pos s)) /\
+  snd (total_locked (complete_state s id o)) = snd (total_locked s) + po_amount o /\
+  asum acc_all (e_pos (complete_state s id o)) = asum acc_all (e_pos s) - po_amount o.
+Proof.
+  intros G St. split; [|split; [reflexivity|]].
+  - intros a. cbn [complete_state e_locked e_pos]. rewrite asum_aset, G, (amount_coin_aset s).
+    unfold acc_f at 2 3. cbn [set_po_status po_status po_purchaser po_amount]. rewrite St.
+    change (ST_ACCEPTED =? ST_ACCEPTED) with true. change (ST_COMPLETED =? ST_ACCEPTED) with false.
+    cbn [andb snd]. rewrite (Z.eqb_sym (po_purchaser o) a).
+    destruct (a =? po_purchaser o) eqn:E; [|lia]. assert (a = po_purchaser o) as -> by lia.
+    rewrite snd_locked_coin. lia.
+  - cbn [complete_state e_pos].
+    rewrite asum_aset, G. unfold acc_all at 2 3. cbn [set_po_status po_status po_amount]. rewrite St.
+    change (ST_ACCEPTED =? ST_ACCEPTED) with true. change (ST_COMPLETED =? ST_ACCEPTED) with false.
+    cbv iota. lia.
+Qed.
+
+Lemma completes_potentials now ids b s b' s' :
+  completes now ids b s b' s' ->
+  (forall a, amount_coin s' a (e_locked s') + asum (acc_f a) (e_pos s')
+             = amount_coin s a (e_locked s) + asum (acc_f a) (e_pos s)) /\
+  snd (total_locked s') + asum acc_all (e_pos s') = snd (total_locked s) + asum acc_all (e_pos s) /\
+  (forall d, supply_of b' d + (if d =? dn s then asum acc_all (e_pos s') else 0)
+             = supply_of b d + (if d =? dn s then asum acc_all (e_pos s) else 0)) /\
+  (forall a d, a <> ENT_MACC -> balance b' a d = balance b a d).
+Proof.
+  induction 1 as [|id o rest b s b1 b' s' I B G St Mi C IH]; [repeat split; auto|].
+  destruct IH as (IH1 & IH2 & IH3 & IH4).
+  destruct (complete_state_potentials s id o G St) as (P1 & P2 & P3).
+  destruct Mi as [Mb Ms].
+  split; [|split; [|split]].
+  - intros a. rewrite IH1. exact (P1 a).
+  - rewrite IH2. lia.
+  - intros d. change (dn (complete_state s id o)) with (dn s) in IH3. rewrite IH3, Ms, P3.
+    destruct (d =? dn s); lia.
+  - intros a d N. rewrite IH4 by exact N. rewrite Mb.
+    destruct (Z.eqb_spec a ENT_MACC); [contradiction|]. cbn [andb]. lia.
+Qed.
+
+Lemma no_accepted_sums now s :
+  sinv now s -> e_acceptedq s = [] ->
+  (forall a, asum (acc_f a) (e_pos s) = 0) /\ asum acc_all (e_pos s) = 0.
+Proof.
+  intros I E.
+  assert (NA : forall k v, In (k, v) (e_pos s) -> po_status v <> ST_ACCEPTED).
+  { intros k v Hin St. apply (In_aget_NoDup _ _ _ (si_nd_pos _ _ I)) in Hin.
+    assert (X : In k (e_acceptedq s)).
+    { apply (si_aq _ _ I). unfold status_of. rewrite Hin. exact St. }
+    rewrite E in X. exact X. }
+  split.
+  - intros a. apply asum_zero. intros k v Hin. unfold acc_f.
+    destruct (po_status v =? ST_ACCEPTED) eqn:X; [|reflexivity].
+    exfalso. apply (NA _ _ Hin). lia.
+  - apply asum_zero. intros k v Hin. unfold acc_all.
+    destruct (po_status v =? ST_ACCEPTED) eqn:X; [|reflexivity].
+    exfalso. apply (NA _ _ Hin). lia.
+Qed.
+
+Lemma completes_all_empty now b s b' s' :
+  completes now (e_acceptedq s) b s b' s' -> e_acceptedq s' = [].
+Proof.
+  intros C. destruct (e_acceptedq s') as [|x r] eqn:E; [reflexivity|].
+  exfalso. assert (X : In x (e_acceptedq s')) by (rewrite E; left; reflexivity).
+  apply (completes_accq _ _ _ _ _ _ C) in X. tauto.
+Qed.
+
+(* never panics: every step of the loop succeeds *)
+Lemma process_accepted_ok now ids : forall b s,
+  sinv now s -> binv b s -> bank_nonneg b -> NoDup ids ->
+  (forall x, In x ids -> In x (e_acceptedq s)) ->
+  exists b' s', process_accepted ids b s = Ok (b', s') /\ bank_nonneg b'.
+Proof.
+  induction ids as [|id rest IH]; intros b s I B Nn ND Inc.
+  - cbn. eauto.
+  - rewrite process_accepted_cons.
+    assert (In id (e_acceptedq s)) as Ia by (apply Inc; left; reflexivity).
+    apply (si_aq _ _ I) in Ia. apply status_accepted_Some in Ia as (o & G & St).
+    destruct (complete_one_ok _ _ _ _ _ I B Nn G St) as (b1 & C). rewrite C.
+    destruct (complete_one_inv _ _ _ _ _ _ I C) as (o' & G' & _ & _ & Mi).
+    rewrite G in G'. injection G' as <-.
+    inversion ND as [|? ? NI ND']; subst.
+    apply IH; auto.
+    + apply sinv_complete_state; auto.
+    + eapply binv_complete; eauto.
+    + eapply minted_nonneg; eauto. pose proof (pk_amt _ _ _ _ _ (si_po _ _ I _ _ G)). lia.
+    + intros x Ix. cbn [complete_state e_acceptedq]. rewrite In_remove_z. split.
+      * apply Inc. right; exact Ix.
+      * intros ->. contradiction.
 Qed.
